@@ -62,18 +62,19 @@ package packets
 // verif:def vpart(d bytes, o int, k int) uint32 = (k >= 1 ? uint32(d[o] & 127) : 0) | (k >= 2 ? uint32(d[o+1] & 127) << 7 : 0) | (k >= 3 ? uint32(d[o+2] & 127) << 14 : 0) | (k >= 4 ? uint32(d[o+3] & 127) << 21 : 0)
 
 // verif:func packets.DecodeLength arith=bv
-//@ requires b != nil && 0 <= b.rpos && b.rpos <= 1099511627776
+//@ requires b != nil && 0 <= b.rpos && b.rpos <= b.blen && b.blen <= 1099511627776
 //@ modifies b.rpos
-//@ ensures at-most-4-bytes: err == nil ==> 1 <= bu && bu <= 4 && b.rpos == old(b.rpos) + bu
-//@ ensures value: err == nil ==> int64(n) == varint(b.rin, old(b.rpos), bu) && 0 <= n && n <= 268435455
-//@ ensures last-byte-ends: err == nil ==> b.rin[old(b.rpos) + bu - 1] < 128
-//@ ensures earlier-bytes-continue: err == nil ==> (forall j int :: 0 <= j && j < bu - 1 ==> b.rin[old(b.rpos) + j] >= 128)
-//@ ensures error-zero: err != nil ==> n == 0
+//@ ensures at-most-4-bytes: err == nil ==> 1 <= bu && bu <= 4 && b.rpos == old(b.rpos) + bu && b.rpos <= b.blen
+//@ ensures value: err == nil ==> int64(n) == varint(b.bdata, old(b.rpos), bu) && 0 <= n && n <= 268435455
+//@ ensures last-byte-ends: err == nil ==> b.bdata[old(b.rpos) + bu - 1] < 128
+//@ ensures earlier-bytes-continue: err == nil ==> (forall j int :: 0 <= j && j < bu - 1 ==> b.bdata[old(b.rpos) + j] >= 128)
+//@ ensures error-zero: err != nil ==> n == 0 && 1 <= bu && bu <= 4
+//@ ensures cursor-monotone: old(b.rpos) <= b.rpos && b.rpos <= b.blen
 // verif:loop packets.DecodeLength 1
-//@ invariant count: 1 <= bu && bu <= 4 && b.rpos == old(b.rpos) + bu - 1
+//@ invariant count: 1 <= bu && bu <= 4 && b.rpos == old(b.rpos) + bu - 1 && b.rpos <= b.blen
 //@ invariant mult: multiplier == uint32(7 * (bu - 1))
-//@ invariant partial: value == vpart(b.rin, old(b.rpos), bu - 1)
-//@ invariant continued: forall j int :: 0 <= j && j < bu - 1 ==> b.rin[old(b.rpos) + j] >= 128
+//@ invariant partial: value == vpart(b.bdata, old(b.rpos), bu - 1)
+//@ invariant continued: forall j int :: 0 <= j && j < bu - 1 ==> b.bdata[old(b.rpos) + j] >= 128
 //@ decreases 5 - bu
 
 // Round trip (C29): for every value in range, the bytes the encoder writes are a stream the decoder
@@ -86,3 +87,44 @@ package packets
 //@ ensures decoder-agrees: 1 <= k && k <= 4 && int64(vpart(d, o, k)) == x
 //@ ensures minimal: k == 1 || x >= shl7(k - 1)
 // verif:def shl7(n int) int64 = n == 1 ? 128 : (n == 2 ? 16384 : 2097152)
+
+// ---- decoding is total (C27): safety sweep over every decoder ----
+// Only what safety needs is stated: offsets stay within the buffer. Every index, slice and
+// nil-dereference in these functions is a `safe` obligation generated by the engine.
+
+// verif:func packets.validUTF8 pure
+
+// verif:func packets.decodeString
+//@ requires 0 <= offset && offset <= len(buf)
+//@ ensures ok: r2 == nil ==> offset + 2 <= len(buf) && r1 == offset + 2 + u16(buf, offset) && r1 <= len(buf) && len(r0) == u16(buf, offset)
+//@ ensures content: r2 == nil ==> (forall i int :: 0 <= i && i < len(r0) ==> r0[i] == buf[offset+2+i])
+//@ ensures bounds: 0 <= r1 && r1 <= len(buf)
+
+// verif:func packets.Properties.Decode nilrecv modifies=all
+//@ requires b != nil && 0 <= b.rpos && b.rpos <= b.blen && b.blen <= 1099511627776
+//@ ensures consumed-within: err == nil ==> 0 <= n && n <= old(b.blen) - old(b.rpos)
+// verif:loop packets.Properties.Decode 1
+//@ invariant 0 <= offset && offset <= len(bt)
+
+// verif:func packets.Subscription.decode modifies=all
+
+// verif:func packets.Packet.ConnectDecode modifies=all
+// verif:func packets.Packet.ConnackDecode modifies=all
+// verif:func packets.Packet.DisconnectDecode modifies=all
+// verif:func packets.Packet.PingreqDecode modifies=all
+// verif:func packets.Packet.PingrespDecode modifies=all
+// verif:func packets.Packet.PublishDecode modifies=all
+// verif:func packets.Packet.decodePubAckRelRecComp modifies=all
+// verif:func packets.Packet.PubackDecode modifies=all
+// verif:func packets.Packet.PubcompDecode modifies=all
+// verif:func packets.Packet.PubrecDecode modifies=all
+// verif:func packets.Packet.PubrelDecode modifies=all
+// verif:func packets.Packet.SubackDecode modifies=all
+// verif:func packets.Packet.SubscribeDecode modifies=all
+// verif:loop packets.Packet.SubscribeDecode 1
+//@ invariant 0 <= offset && offset <= len(buf)
+// verif:func packets.Packet.UnsubackDecode modifies=all
+// verif:func packets.Packet.UnsubscribeDecode modifies=all
+// verif:loop packets.Packet.UnsubscribeDecode 1
+//@ invariant 0 <= offset && offset <= len(buf)
+// verif:func packets.Packet.AuthDecode modifies=all
